@@ -131,9 +131,28 @@ func scriptStmts(c *Ctx) []string {
 	out = append(out, "a = 1", "b = 2")
 	defined := map[string]bool{"a": true, "b": true}
 	haveF, haveM := false, false
+	macroHeavy := c.R.Intn(3) == 0 // a third of the scripts define a macro first and use it in several statements
+	if macroHeavy {
+		out = append(out, c.R.Pick([]string{"m = macro(x, y) { quote(unquote(x) + unquote(y) * 2) }", "m = macro(x, y) { quote(if unquote(x) > 2 { unquote(y) } else { unquote(x) }) }"}))
+		haveM = true
+	}
 	for i := 0; i < n; i++ {
 		v := vars[c.R.Intn(len(vars))]
-		switch c.R.Intn(9) {
+		k := c.R.Intn(9)
+		if macroHeavy && c.R.Intn(3) == 0 {
+			k = 6 + 3*c.R.Intn(2) // a macro use: printed, or stored in a variable / used inside a function defined now and called later
+		}
+		switch k {
+		case 9:
+			switch c.R.Intn(3) {
+			case 0:
+				out = append(out, fmt.Sprintf("%s = m(a, %d) + 1", v, c.R.Intn(5)))
+				defined[v] = true
+			case 1:
+				out = append(out, fmt.Sprintf("func g%d(x) {\n\tm(x, %d)\n}", i, c.R.Intn(5)), fmt.Sprintf("println(g%d(b))", i))
+			default:
+				out = append(out, fmt.Sprintf("for i = 2 {\n\tprintln(m(i, a))\n}"))
+			}
 		case 0:
 			out = append(out, fmt.Sprintf("%s = a + %d", v, c.R.Intn(10)))
 			defined[v] = true
@@ -190,8 +209,17 @@ func sessions(c *Ctx, s *st) {
 	if c.Thorough() {
 		n = 1500
 	}
-	for k := 0; k < n; k++ {
-		stm := scriptStmts(c)
+	fixed := [][]string{
+		{"double = macro(x){quote(unquote(x)*2)}", "a = double(4)", "println(\"a =\", a)", "b = double(a)+1", "println(\"b =\", b)"},
+		{"sq = macro(x){quote(unquote(x)*unquote(x))}", "func f(n) {\n\tsq(n+1)\n}", "println(f(2))", "println(sq(3), f(4))"},
+	}
+	for k := 0; k < n+len(fixed); k++ {
+		var stm []string
+		if k < len(fixed) {
+			stm = fixed[k]
+		} else {
+			stm = scriptStmts(c)
+		}
 		whole := strings.Join(stm, "\n")
 		o0, g0, e0 := runSession([]string{whole})
 		if len(e0) > 0 {
